@@ -114,6 +114,25 @@ def emit_sys(traces, out, monitors):
     out.write('Print NONTRIVIAL.\n')
 
 
+CASE_MODULES = {'route': 'Route', 'poll': 'Poll', 'kernel': 'Kernel', 'codec': 'Codec', 'valid': 'Valid'}
+
+
+def emit_cases(fam, traces, out):
+    """traces: dicts with a 'cases' list of terms of the case type of coq/Model/<Module>.v; the Coq function
+    <fam>_mismatches : list (list case) -> list (nat * nat * Z) lists (group, case) pairs on which model and code differ."""
+    em = Emitter()
+    out.write('From RV Require Import %s.\n' % CASE_MODULES[fam])
+    names = []
+    for k, tr in enumerate(traces):
+        cs = [em.term(c) for c in tr['cases']]
+        em.dump(out)
+        out.write('Definition cs_%d := [%s].\n' % (k, '; '.join(cs)))
+        names.append(k)
+    out.write('Definition all_cases := [%s].\n' % '; '.join('cs_%d' % k for k in names))
+    out.write('Definition MISMATCHES := Eval vm_compute in %s_mismatches all_cases.\n' % fam)
+    out.write('Print MISMATCHES.\n')
+
+
 def emit_store(traces, out):
     em = Emitter()
     out.write('From RV Require Import Sys Replay Mon MonC09 MonC01 MonC05 MonC04 MonC07 MonC08 MonC03 MonC14 MonC10 MonC06.\n')
